@@ -123,6 +123,8 @@ struct World {
     chan: Option<Arc<Channel<Tok>>>,
     wm: bool,
     nested_kinds: u32,
+    /// how many values the final drain may take before the channel is dropped (None = all)
+    final_drain: Option<u32>,
     solo_target: Option<usize>,
     nested_cost: Vec<u64>,
     completed: Vec<u64>,
@@ -454,7 +456,21 @@ fn sequential_script(spec: &RunSpec) -> ! {
 fn finish(nontrivial: bool) -> ! {
     // final drain + drop of the channel + conservation
     sim::set_stop_inject(true);
-    while let Some(_) = do_recv(false) {}
+    // the channel is dropped either drained or with values still in flight (after some were
+    // received, so that queue position and slot number differ)
+    let mut left = w().final_drain;
+    loop {
+        if left == Some(0) {
+            break;
+        }
+        if do_recv(false).is_none() {
+            break;
+        }
+        if let Some(n) = left.as_mut() {
+            *n -= 1;
+        }
+    }
+    let drained = left != Some(0);
     check_history();
     {
         let _g = ShimGuard::new();
@@ -476,7 +492,7 @@ fn finish(nontrivial: bool) -> ! {
         if t.drops != 1 {
             sim::report("C07", "value-not-dropped-exactly-once", &format!("token #{} was dropped {} times by the end of the run (channel dropped)", i, t.drops), true);
         }
-        if t.site == 3 {
+        if t.site == 3 && drained {
             // dropped with the channel although the final drain found the channel empty
             sim::report("C06", "value-stranded-in-channel", &format!("token #{} was still inside the channel after the final drain reported empty", i), false);
         }
@@ -525,6 +541,7 @@ pub fn run(spec: &RunSpec) -> ! {
         chan: None,
         wm: false,
         nested_kinds: 1,
+        final_drain: None,
         solo_target: None,
         nested_cost: vec![0; sim::MAX_THREADS],
         completed: vec![0; sim::MAX_THREADS],
@@ -546,6 +563,9 @@ pub fn run(spec: &RunSpec) -> ! {
     let _ = CHANNEL_SYNC_FOR_SEND_PAYLOAD;
     if prop == "C08" && spec.run < spec.prop.sweep_runs {
         sweep_run(spec);
+    }
+    if sim::work(3) == 0 {
+        w().final_drain = Some(sim::work(3));
     }
     if sim::work(4) == 0 && prop != "C08" {
         sequential_script(spec);
